@@ -353,7 +353,7 @@ def main(argv=None):
         print(ln)
 
     wall = time.time() - t0
-    write_evidence(prop, args.tier, seed, results, infos, violations, undecided, known_hits, discharged, bounded, wall, S)
+    write_evidence(prop, args.tier, seed, results, infos, violations, undecided, known_hits, discharged, bounded, wall, S, engines)
     n_ob = len(discharged) + len(violations) + len(undecided)
     print(f"{prop} [{args.tier}]: {len(discharged)}/{n_ob} obligations discharged, {len(bounded)} bounded, {len(known_hits)} known findings, {len(violations)} violations, {len(undecided)} undecided, {wall:.1f}s")
     if violations:
@@ -366,7 +366,7 @@ def main(argv=None):
     sys.exit(0)
 
 
-def write_evidence(prop, tier, seed, results, infos, violations, undecided, known_hits, discharged, bounded, wall, S):
+def write_evidence(prop, tier, seed, results, infos, violations, undecided, known_hits, discharged, bounded, wall, S, engines=("V", "K", "T", "S", "F")):
     os.makedirs(EVIDENCE, exist_ok=True)
     trusted = []
     for i in infos:
@@ -434,7 +434,12 @@ def write_evidence(prop, tier, seed, results, infos, violations, undecided, know
         "wall_s": round(wall, 2),
         "violations": len(violations),
     }
-    with open(os.path.join(EVIDENCE, prop + ".json"), "w") as f:
+    # a partial run (engine filter, scratch copy of the repository, a subset of Kani groups) is a developer
+    # run: its record goes to out/, never over the evidence file of the registered command
+    partial = set(engines) != {"V", "K", "T", "S", "F"} or os.environ.get("VERIF_REPO", "/repo") != "/repo" or bool(os.environ.get("VERIF_KANI_GROUPS"))
+    dest = os.path.join(VERIF, "out", prop, "evidence_partial.json") if partial else os.path.join(EVIDENCE, prop + ".json")
+    os.makedirs(os.path.dirname(dest), exist_ok=True)
+    with open(dest, "w") as f:
         json.dump(doc, f, indent=1)
 
 
